@@ -29,8 +29,9 @@ class AttrDict(dict):
     def __getitem__(self, key):
         found = self.get(key, AttrDict.MARKER)
         if found is AttrDict.MARKER:
+            # Looking up an undeclared name must not declare it, otherwise the
+            # attributes set on later results depend on earlier look-ups
             found = AttrDict()
-            super(AttrDict, self).__setitem__(key, found)
         return found
 
     __setattr__, __getattr__ = __setitem__, __getitem__
